@@ -236,10 +236,16 @@ fn lex_source_into_buffer<'source: 'tokens, 'tokens: 'buffer, 'buffer>(
 			{
 				continue;
 			}
-			b'\r' =>
+			b'\r' => match iter.peek()
 			{
-				continue;
-			}
+				// Only a carriage return that is part of a CRLF line ending
+				// is whitespace.
+				Some((_, b'\n')) =>
+				{
+					continue;
+				}
+				_ => Err(LexingError::UnexpectedCharacter),
+			},
 			b'\n' =>
 			{
 				line_number += 1;
